@@ -476,6 +476,12 @@ theorem priority_is_max (K : List UInt8 → List UInt8) (hash : List UInt8) (j :
   · exact Or.inl h
   · exact Or.inr ⟨t, by omega, h3⟩
 
+/-- distinct seats have distinct hash inputs (`i.Bytes()` is injective), so the maximum really ranges over j+1 hashes -/
+theorem seat_inputs_distinct (hash : List UInt8) (t t' : Nat) (h : hash ++ minBE t = hash ++ minBE t') : t = t' := by
+  have := List.append_cancel_left h
+  have h2 := congrArg natOfBytes this
+  rwa [natOfBytes_minBE, natOfBytes_minBE] at h2
+
 /-- so a priority that verifies is the largest hash over the claimed seats -/
 theorem verified_priority_is_max {SK PK Proof Rand : Type} (V : Vrf SK PK Proof Rand) (cdf : F64 → Nat → F64)
     (K : List UInt8 → List UInt8) (pk : PK) (seed : List UInt8) (index role : Nat) (proof : Proof)
@@ -561,6 +567,34 @@ theorem server_verifySortition_lenient_counterexample : ¬ server_verifySortitio
   have := h noVrf (fun _ _ => f64One) ⟨50, 2⟩ 50 zero32 1 2 [1, 2, 3] 1000000 ⟨2000, 20000, 100000⟩ (by decide)
   revert this
   decide
+
+/-! ## 7b. numerics of the model: the rounding primitive
+
+The float64 derivations (`targetOf`, `invOf`, `pOf`, `f64Mul`, `f64OneMinus`) all round through `divRNE`; their agreement
+with Go's math/big and float64 arithmetic is checked bit for bit by the correspondence on every case, not proved. -/
+
+/-- the rounding primitive of every float64 derivation of the model: `divRNE n d` is a nearest integer to `n/d` … -/
+theorem divRNE_nearest (n d : Nat) (hd : 0 < d) :
+    2 * (divRNE n d * d) ≤ 2 * n + d ∧ 2 * n ≤ 2 * (divRNE n d * d) + d := by
+  have hdm := Nat.div_add_mod n d
+  have hr := Nat.mod_lt n hd
+  unfold divRNE
+  simp only []
+  generalize hQ : d * (n / d) = Q at hdm
+  by_cases hc : 2 * (n % d) > d ∨ (2 * (n % d) = d ∧ n / d % 2 = 1)
+  · rw [if_pos hc, Nat.add_mul, Nat.mul_comm (n / d) d, hQ]
+    rcases hc with h | h <;> omega
+  · rw [if_neg hc, Nat.mul_comm (n / d) d, hQ]
+    have : ¬ 2 * (n % d) > d := fun h => hc (Or.inl h)
+    omega
+
+/-- … and on an exact tie it is the even neighbour -/
+theorem divRNE_tie_even (n d : Nat) (htie : 2 * (n % d) = d) : divRNE n d % 2 = 0 := by
+  unfold divRNE
+  simp only []
+  by_cases hodd : n / d % 2 = 1
+  · rw [if_pos (Or.inr ⟨htie, hodd⟩)]; omega
+  · rw [if_neg (by intro h; rcases h with h | h; omega; exact hodd h.2)]; omega
 
 /-! ## 8. tests: the hypotheses of the theorems above are satisfiable (labelled tests, `decide` on literals) -/
 
